@@ -271,7 +271,15 @@ class FastNetNeuronCommunicator(FastSerialCommunicator):
             return
 
         hw_states = {}
-        _, raw_switch_data = msg.split(',')
+        byte_count, raw_switch_data = msg.split(',')
+
+        # <number of bytes as two hex digits>,<two hex digits per byte>. Anything else is line noise and must not
+        # be applied (fromhex() would skip white space and a damaged count would go unnoticed).
+        hex_digits = '0123456789abcdefABCDEF'
+        if (len(byte_count) != 2 or any(char not in hex_digits for char in byte_count + raw_switch_data) or
+                len(raw_switch_data) != 2 * int(byte_count, 16)):
+            self.log.warning("Ignoring malformed switch report SA:%s", msg)
+            return
 
         for offset, byte in enumerate(bytearray.fromhex(raw_switch_data)):
             for i in range(8):
